@@ -82,6 +82,34 @@ pub(crate) fn lex_with_function__must_not_be_reached<'i>(
     panic!("the function-call lexer was reached")
 }
 
+/// What the stubbed integer-literal lexer returns: Some((value, bytes consumed)) or None
+/// for "not an integer".
+pub(crate) static mut NEXT_INT: Option<(i64, usize)> = None;
+
+/// Contract of `<i64 as Lex>::lex` (the real one is C06's obligation): on a text that
+/// starts with an integer literal, `Ok((its value, the text after it))`; otherwise an
+/// error located at the text.  The obligation says which, and gives a text that really
+/// starts with that literal.  (`where 'i: 'i` makes the lifetime early-bound like the
+/// impl's: Kani compares the number of generic parameters.)
+pub(crate) fn i64_lex__contract<'i>(input: &str) -> LexResult<'_, i64>
+where
+    'i: 'i,
+{
+    match unsafe { NEXT_INT } {
+        Some((v, len)) => Ok((v, &input[len..])),
+        None => Err((LexErrorKind::ExpectedName("digit"), input)),
+    }
+}
+
+/// Contract of `<BytesExpr as Lex>::lex` on the text `"k"...`: the one-byte string `k`,
+/// three bytes consumed (only used with such a text).
+pub(crate) fn bytes_expr_lex__contract<'i>(input: &str) -> LexResult<'_, crate::rhs_types::BytesExpr>
+where
+    'i: 'i,
+{
+    Ok((crate::rhs_types::BytesExpr::from(String::from("k")), &input[3..]))
+}
+
 #[derive(Clone, Copy, PartialEq, Eq)]
 pub(crate) enum Indexing {
     /// Ok, all the text consumed, with this many indexes of which this many `[*]`
@@ -114,16 +142,21 @@ fn lex_index_expr(text: &'static str, scheme: &Scheme, actual: Type) -> Indexing
 }
 
 macro_rules! index_typing {
-    ($name:ident, $decl:expr, $text:literal, $want:expr, $actual:expr) => {
+    ($name:ident, $decl:expr, $text:literal, $int:expr, $want:expr, $actual:expr) => {
         #[kani::proof]
-        #[kani::unwind(5)]
+        #[kani::unwind(4)]
         #[kani::solver(minisat)]
         #[kani::stub(crate::rhs_types::regex::Regex::new, crate::ast::field_expr::verif_kani::common::regex_new__must_not_be_reached)]
         #[kani::stub(std::mem::drop, crate::ast::field_expr::verif_kani::common::mem_drop__leak)]
         #[kani::stub(crate::scheme::Scheme::get, crate::ast::index_expr::verif_kani::c04::scheme_get__one_field_named_a)]
         #[kani::stub(crate::ast::function_expr::FunctionCallExpr::lex_with_function, crate::ast::index_expr::verif_kani::c04::lex_with_function__must_not_be_reached)]
+        #[kani::stub(<i64 as crate::lex::Lex>::lex, crate::ast::index_expr::verif_kani::c04::i64_lex__contract)]
+        #[kani::stub(<crate::rhs_types::BytesExpr as crate::lex::Lex>::lex, crate::ast::index_expr::verif_kani::c04::bytes_expr_lex__contract)]
         fn $name() {
             let scheme = scheme_of(&[($decl, false)], true);
+            unsafe {
+                NEXT_INT = $int;
+            }
             let got = lex_index_expr($text, &scheme, $actual);
             assert!(got == $want, "the index kind must match the container");
             kani::cover!(true, "case decided");
@@ -132,13 +165,13 @@ macro_rules! index_typing {
     };
 }
 
-index_typing!(index_typing__array_each, arr(Type::Int), "a[*]", Indexing::Accepted(1, 1), Type::Int);
-index_typing!(index_typing__map_each, map(Type::Int), "a[*]", Indexing::Accepted(1, 1), Type::Int);
-index_typing!(index_typing__scalar_each, Type::Bytes, "a[*]", Indexing::InvalidIndexAccess, Type::Bytes);
-index_typing!(index_typing__array_number, arr(Type::Int), "a[0]", Indexing::Accepted(1, 0), Type::Int);
-index_typing!(index_typing__map_number, map(Type::Int), "a[0]", Indexing::InvalidIndexAccess, map(Type::Int));
-index_typing!(index_typing__scalar_number, Type::Int, "a[0]", Indexing::InvalidIndexAccess, Type::Int);
-index_typing!(index_typing__map_key, map(Type::Int), "a[\"k\"]", Indexing::Accepted(1, 0), Type::Int);
-index_typing!(index_typing__array_key, arr(Type::Int), "a[\"k\"]", Indexing::InvalidIndexAccess, arr(Type::Int));
-index_typing!(index_typing__scalar_key, Type::Ip, "a[\"k\"]", Indexing::InvalidIndexAccess, Type::Ip);
-index_typing!(index_typing__bare, Type::Ip, "a", Indexing::Accepted(0, 0), Type::Ip);
+index_typing!(index_typing__array_each, arr(Type::Int), "a[*]", None, Indexing::Accepted(1, 1), Type::Int);
+index_typing!(index_typing__map_each, map(Type::Int), "a[*]", None, Indexing::Accepted(1, 1), Type::Int);
+index_typing!(index_typing__scalar_each, Type::Bytes, "a[*]", None, Indexing::InvalidIndexAccess, Type::Bytes);
+index_typing!(index_typing__array_number, arr(Type::Int), "a[0]", Some((0, 1)), Indexing::Accepted(1, 0), Type::Int);
+index_typing!(index_typing__map_number, map(Type::Int), "a[0]", Some((0, 1)), Indexing::InvalidIndexAccess, map(Type::Int));
+index_typing!(index_typing__scalar_number, Type::Int, "a[0]", Some((0, 1)), Indexing::InvalidIndexAccess, Type::Int);
+index_typing!(index_typing__map_key, map(Type::Int), "a[\"k\"]", None, Indexing::Accepted(1, 0), Type::Int);
+index_typing!(index_typing__array_key, arr(Type::Int), "a[\"k\"]", None, Indexing::InvalidIndexAccess, arr(Type::Int));
+index_typing!(index_typing__scalar_key, Type::Ip, "a[\"k\"]", None, Indexing::InvalidIndexAccess, Type::Ip);
+index_typing!(index_typing__bare, Type::Ip, "a", None, Indexing::Accepted(0, 0), Type::Ip);
